@@ -123,6 +123,9 @@ func kindOf(name string) int {
 	if name == "invalid" {
 		return jsonapi.AttrTypeInvalid
 	}
+	if name == "invalid-high" {
+		return jsonapi.AttrTypeBytes + 1 // a number that is not one of the kinds
+	}
 	t, _ := jsonapi.GetAttrType(name)
 	return t
 }
